@@ -6,6 +6,9 @@ static uint64_t H(uint64_t h, const void *p, size_t n) { const unsigned char *b 
 static uint64_t Hd(uint64_t h, double d) { return H(h, &d, 8); }
 static uint64_t He(uint64_t h, xrl_error **e) { if (*e) { h = H(h, &(*e)->code, sizeof(int)); h = H(h, (*e)->message, strlen((*e)->message)); xrl_clear_error(e); } else h = H(h, "noerr", 5); return h; }
 #define H0 1469598103934665603ull
+#ifdef SCHED_GEN
+#include "sched_ops_gen.h"
+#endif
 static uint64_t op_run(int k) {
     xrl_error *e = NULL; uint64_t h = H0;
     switch (k) {
@@ -41,8 +44,15 @@ static uint64_t op_run(int k) {
     case 26: h = Hd(h, Refractive_Index_Re("Uu", 10.0, 1.0, &e)); return He(h, &e);
     case 27: { struct radioNuclideData *c = GetRadioNuclideDataByIndex(99, &e); h = H(h, &c, sizeof c); return He(h, &e); }
     }
+#ifdef SCHED_GEN
+    if (k >= 28) return gen_run(k - 28);     /* generated ops: every value-returning entry point with representative tuples (checks/c17.py writes sched_ops_gen.h) */
+#endif
     return 0;
 }
+#ifdef SCHED_GEN
+#define NOPS (28 + NGEN)
+#else
 #define NOPS 28
+#endif
 
 #endif
